@@ -65,10 +65,13 @@ def replay_failure(h, prop, logdir):
     """Re-run a failed harness with concrete playback, replay natively, write the replay file.
     Returns (reproduced: bool, replay_path or None, detail)."""
     r = run_harness(h, logdir, playback=True)
-    tests = [t for t in extract_tests(r["text"] or "") if t[0] != "cover"]
+    all_tests = extract_tests(r["text"] or "")
+    # Kani writes playback tests for failed assertions and for satisfied cover witnesses, but none for
+    # CBMC's built-in checks (e.g. "memcpy src/dst overlap").  The witness tests are tried as well: they
+    # count only if the *native* run fails, so a witness that does not hit the defect changes nothing.
+    tests = [t for t in all_tests if t[0] != "cover"][:8] + [t for t in all_tests if t[0] == "cover"][:4]
     if not tests:
         return False, None, "Kani produced no concrete playback test for the failed checks"
-    tests = tests[:8]
     res, out = native_run(h, tests)
     open(os.path.join(logdir, h.short + ".native.log"), "w").write(out)
     good = [t for t in tests if res.get(t[2])]
@@ -84,7 +87,8 @@ def replay_failure(h, prop, logdir):
             f.write("// failed check: %s: %s\n" % (t[0], t[1]))
             f.write(t[3] + "\n")
     if good:
-        return True, path, "; ".join(sorted(set(t[1] for t in good)))
+        return True, path, "; ".join(sorted(set((t[1] if t[0] != "cover" else "native failure on the path of witness '%s'" % t[1])
+                                                   for t in good)))
     return False, path, "counterexample did not reproduce natively (checks: %s)" % "; ".join(sorted(set(t[1] for t in tests)))
 
 
